@@ -23,9 +23,12 @@ type tcpServer struct {
 	conns sync.Map
 
 	// handlers counts the running Handle calls: Close waits for them, so that at
-	// shutdown no connection (and no messagePump) is left once it returns
+	// shutdown no connection (and no messagePump) is left once it returns.
+	// live holds the connection of every running Handle call (conns only holds
+	// client objects: /stats asserts that), so that Close can close them all
 	mtx      sync.Mutex
 	closing  bool
+	live     map[net.Conn]struct{}
 	handlers sync.WaitGroup
 }
 
@@ -37,14 +40,19 @@ func (p *tcpServer) Handle(conn net.Conn) {
 		return
 	}
 	p.handlers.Add(1)
+	if p.live == nil {
+		p.live = make(map[net.Conn]struct{})
+	}
+	p.live[conn] = struct{}{}
 	p.mtx.Unlock()
-	defer p.handlers.Done()
+	defer func() {
+		p.mtx.Lock()
+		delete(p.live, conn)
+		p.mtx.Unlock()
+		p.handlers.Done()
+	}()
 
 	p.nsqd.logf(LOG_INFO, "TCP: new client(%s)", conn.RemoteAddr())
-
-	// until the client object exists Close closes the bare connection
-	p.conns.Store(conn.RemoteAddr(), conn)
-	defer p.conns.Delete(conn.RemoteAddr())
 
 	// The client should initialize itself by sending a 4 byte sequence indicating
 	// the version of the protocol that it intends to communicate, this will allow us
@@ -91,6 +99,10 @@ func (p *tcpServer) Handle(conn net.Conn) {
 func (p *tcpServer) Close() {
 	p.mtx.Lock()
 	p.closing = true
+	// also the connections that have no client object (yet)
+	for conn := range p.live {
+		conn.Close()
+	}
 	p.mtx.Unlock()
 	p.conns.Range(func(k, v interface{}) bool {
 		v.(protocol.Client).Close()
